@@ -317,6 +317,16 @@ def patch_filter(ctx, fx, sp):
             lt = line_t
             pristine = isinstance(lt, tuple) and lt and lt[0] != "mutated" and not is_call(lt) and mentions(lt, lambda s_: is_call(s_, "io::Split<B> as std::iter::Iterator>::next", "Split as std::iter::Iterator>::next"))
             ok = len(ups) == 2 and strip_refs(ups[0].args[1]) == line_t and const_bytes(ups[1].args[1]) == "\n" and pristine
+            if not ok and pristine and len(ups) == 1:
+                # the same bytes in one call: line.push(b'\n'); update(&line) - the only edit of the line between the filter and the update
+                # is appending the newline that the splitter removed
+                ua = ups[0].args[1]
+                ul = [x for x in subterms(ua) if x[0] in ("mutated", "loc") and isinstance(x[1], int)]
+                lloc = ul[0][1] if ul else None
+                muts = [e for e in p.events if e.kind == "call" and e.args and isinstance(e.args[0], tuple) and e.args[0][0] == "refmut" and isinstance(e.args[0][1], tuple)
+                        and e.args[0][1][0] == "loc" and e.args[0][1][1] == lloc and p.events.index(e) > p.events.index(a)]
+                ok = lloc is not None and len(muts) == 1 and ev_is(muts[0], "Vec::push") and const_int(muts[0].args[1]) == 10 \
+                    and strip_refs(muts[0].args[0][1][2]) == line_t and p.events.index(muts[0]) < p.events.index(ups[0])
             ctx.check(ok, "D5-FILTER", fn, "keep-path-%d" % i, "kept line: update(line); update(b\"\\n\")",
                       "kept line is followed by %s; expected exactly update(line) then update(b\"\\n\")" % [term_str(u.args[1]) for u in ups],
                       body.span_of(a.bb))
